@@ -331,6 +331,11 @@ func (s *Script) header() string {
 		// constant arrays) and string literals are distinct by construction
 		b.WriteString("(declare-datatypes ((Ref 0)) (((nil_ref) (mk_ref (ref_id Int)))))\n(declare-datatypes ((Str 0)) (((str_empty) (mk_str (str_id Int)))))\n(declare-datatypes ((Fn 0)) (((nil_fn) (mk_fn (fn_id Int)))))\n(declare-datatypes ((Flt 0)) (((flt_zero) (mk_flt (flt_id Int)))))\n(declare-datatypes ((Any 0)) (((any_nil) (mk_any (any_id Int)))))\n")
 	}
+	if s.mathInts {
+		for _, w := range []int{8, 16, 32, 64} {
+			fmt.Fprintf(&b, "(define-sort Int_i%d () Int)\n(define-sort Int_u%d () Int)\n", w, w)
+		}
+	}
 	idx := s.idxSort()
 	fmt.Fprintf(&b, "(declare-datatypes ((Slice 0)) (((mk_slice (sl_ptr Ref) (sl_off %s) (sl_len %s) (sl_cap %s)))))\n", idx, idx, idx)
 	b.WriteString("(declare-datatypes ((Iface 0)) (((mk_iface (if_tag Int) (if_val Any)))))\n")
